@@ -32,7 +32,8 @@ def lines_of(evs, grace):
         elif k == "Write":
             if e["id"] < 0:
                 continue          # not a harness statement (error text written in place of a failing statement)
-            out.append({"k": "write", "s": e["s"], "id": e["id"], "lvl": e["lvl"], "ts": e["ts"], "thr": bool(e.get("thr"))})
+            out.append({"k": "write", "s": e["s"], "id": e["id"], "lvl": e["lvl"], "ts": e["ts"], "thr": bool(e.get("thr")),
+                        "intact": bool(e.get("intact", True)), "fmt": bool(e.get("fmt", True)), "nnamed": e.get("nnamed", 0)})
         elif k == "SinkFlush":
             out.append({"k": "sflush", "s": e["s"], "thr": bool(e.get("thr"))})
         elif k == "FlushCall":
